@@ -45,6 +45,7 @@ ACCESS_RE = re.compile(
     r"self\.cook_check\(\)|self\.cook\(|self\.content_type|"
     r"self\.source\b|self\.body\b")
 _access_cache: dict = {}
+from threading import get_ident as _get_ident  # noqa: E402
 
 
 def is_access(code, line: int) -> bool:
@@ -124,18 +125,32 @@ class Interrupt:
         self.access = access
         self.thread = thread_ident or threading.get_ident()
         self.count = 0
+        self.events = 0         # all line events seen (any mode)
         self.fired = None       # (file, function, line) once delivered
 
 
+def listening(on: bool) -> None:
+    """Keep line events alive between interrupts of one batch (restarting
+    them is not free: every code object is instrumented afresh)."""
+    if on and not _state.get("listening") and _state["installed"]:
+        mon.restart_events()
+    _state["listening"] = on
+
+
 def arm_interrupt(it: "Interrupt | None") -> None:
+    if it is not None and _state["intr"] is None and \
+            _state["sched"] is None and _state["installed"] and \
+            not _state.get("listening"):
+        mon.restart_events()        # (line events switched themselves off)
     _state["intr"] = it
 
 
 def _on_line(code, line):
     it = _state["intr"]
-    if it is not None and code.co_name != "__del__":
-        import threading
-        if threading.get_ident() == it.thread and (
+    if it is not None and code.co_name != "__del__" and \
+            _get_ident() == it.thread:
+        it.events += 1
+        if (
                 it.seen is None or (code, line) not in it.seen) and (
                 not it.access or (classify(code) == "fine" and
                                   is_access(code, line))):
@@ -148,7 +163,12 @@ def _on_line(code, line):
                             code.co_name, line)
                 raise it.make()
     sched = _state["sched"]
-    if sched is None or not sched.active:
+    if sched is None:
+        # nobody is listening: this location stays silent (and costs
+        # nothing) until attach() / arm_interrupt() restart the events
+        return mon.DISABLE if it is None and \
+            not _state.get("listening") else None
+    if not sched.active:
         return None
     t = sched.current()
     if t is None:
@@ -228,6 +248,8 @@ def install() -> None:
 
 
 def attach(sched, coarse: bool = False, focus: bool = False) -> None:
+    if _state["installed"]:
+        mon.restart_events()
     _state["sched"] = sched
     _state["coarse"] = coarse
     _state["focus"] = focus
